@@ -65,6 +65,9 @@ impl Cfg {
         if hist & 16 != 0 {
             c.only_stable_features(!self.only_stable);
         }
+        // strict validation "strictly isn't required to create a Module":
+        // switching it must not change what a valid module round-trips to
+        c.strict_validate(hist & 3 != 3);
         c.generate_name_section(self.names);
         c.generate_producers_section(self.producers);
         c.preserve_code_transform(self.code_transform);
